@@ -1267,6 +1267,57 @@ def r24_name_tail_expr(toks, counts):
     return new
 
 
+def r25_vec_extend(toks, counts):
+    """statement `X.extend(E);` -> `vec_extend(&mut X, E);` for a simple path X (a Vec extended by a Vec):
+    `Extend::extend` with a Vec argument appends its elements in order"""
+    out = []
+    i = 0
+    n = len(toks)
+    while i < n:
+        t = toks[i]
+        if is_p(t, '.'):
+            nx = next_sig(toks, i + 1)
+            if nx < n and is_id(toks[nx], 'extend'):
+                op = next_sig(toks, nx + 1)
+                if op < n and is_p(toks[op], '('):
+                    cl = match_close(toks, op)
+                    after = next_sig(toks, cl + 1)
+                    if after < n and is_p(toks[after], ';'):
+                        j = len(out) - 1
+                        while j >= 0 and out[j][0] == 'ws':
+                            j -= 1
+                        recv_end = j
+                        ok = True
+                        while j >= 0:
+                            if out[j][0] == 'id':
+                                p = j - 1
+                                while p >= 0 and out[p][0] == 'ws':
+                                    p -= 1
+                                if p >= 0 and is_p(out[p], '.'):
+                                    j = p - 1
+                                    while j >= 0 and out[j][0] == 'ws':
+                                        j -= 1
+                                    continue
+                                break
+                            ok = False
+                            break
+                        if ok and j >= 0:
+                            pv = prev_sig(out, j - 1)
+                            if pv < 0 or (out[pv][0] == 'p' and out[pv][1] in ';{}'):
+                                recv = out[j:recv_end + 1]
+                                del out[j:]
+                                out += [('id', 'vec_extend'), ('p', '(')]
+                                if not (len(recv) == 1 and _is_mut_ref_param(toks, recv[0][1])):
+                                    out += [('p', '&'), ('id', 'mut'), ('ws', ' ')]
+                                out += recv + [('p', ','), ('ws', ' ')] + toks[op + 1:cl] + [('p', ')')]
+                                counts['R25'] = counts.get('R25', 0) + 1
+                                i = cl + 1
+                                continue
+        out.append(t)
+        i += 1
+    return out
+
+
 def r9_enumerate(toks, counts):
     """`for (i, P) in E.enumerate() { B }`            ->  `{ let mut i: usize = 0; for P in E { B i += 1; } }`
        `for (i, P) in E.enumerate().skip(N) { B }`    ->  same with the body guarded by `if i >= N { B }`
@@ -1417,6 +1468,7 @@ def extract_region(src_text, path, opts=None):
             if 'R24' in opts.get('rules', ()):
                 item = r24_name_tail_expr(item, counts)
             item = r21_map_err_anyhow(item, counts)
+            item = r25_vec_extend(item, counts)
             item = r13_binders(item, counts)
     if 'R10' in opts.get('rules', ()):
         item = r10_trailing_continue(item, counts)
